@@ -66,7 +66,7 @@ M = [
     ("c01-schulz-zimm-swapped-print", "distribution.py", 'return f"|schulz_zimm{self._Mw, self._Mn}|"', 'return f"|schulz_zimm{self._Mn, self._Mw}|"', ["C01"]),
     ("c01-erase-keeps-dist", "stochastic.py", "            string += self.distribution.generate_string(extension)", "            string += self.distribution.generate_string(True)", ["C01"]),
     ("c02-id-two-digits", "bond.py", "            self.descriptor_id = int(id_str.strip())", "            self.descriptor_id = int(id_str.strip()[:2])", ["C02"]),
-    ("c02-list-weight-first", "bond.py", "                self.weight = self.transitions.sum()", "                self.weight = self.transitions[0]", ["C02", "C01"]),
+    ("c02-list-weight-first", "bond.py", "                self.weight = self.transitions.sum()", "                self.weight = self.transitions[0]", ["C02"]),
     ("c02-branch-revert", "token.py", '    for char in string:\n        if char == "(":\n            atom_to_bond.append(atom_to_bond[-1])\n        elif char == ")":\n            atom_to_bond.pop(-1)', '    for _ in range(string.count("(")):\n        atom_to_bond.append(atom_to_bond[-1])\n    for _ in range(string.count(")")):\n        atom_to_bond.pop(-1)', ["C02"]),
     ("c02-gauss-params-swapped", "distribution.py", "        self._mu, self._sigma = make_tuple(self._raw_text[len(\"gauss\") :])", "        self._sigma, self._mu = make_tuple(self._raw_text[len(\"gauss\") :])", ["C02", "C09"]),
     ("c03-dollar-bonds-angle", "bond.py", '        if self.descriptor == "$" and other.descriptor == "$":\n            return True', '        if self.descriptor == "$" and other.descriptor in ("$", "<"):\n            return True', ["C03"]),
